@@ -115,7 +115,7 @@ async def _run(n0, cycles):
             if f == "eof-mid":
                 reader.feed_eof()
         # "timeout": nothing arrives any more
-        for _ in range(400):
+        for _ in range(400 + 21 * c["fails"]):
             await asyncio.sleep(1)
             if busy is not None and not busy.done() and not proto.connected.is_set():
                 busy.set_result(None)           # the slow subscriber returns while the connection is down
@@ -180,7 +180,7 @@ class C11(Prop):
     rule = ("real Connection (scripted _open_connection) + AsyncProtocol + fake transports under the virtual-time loop: 0..2 failing initial "
             "opens, 1..4 loss/reconnect cycles, each with traffic (frames from the controller and/or an ecoSTER panel, creating 0..2 devices), "
             "a fault at the k-th read or write (end of stream, OSError, silence until the 10 s read timeout, failing write, silence or end of stream after the first 1..n-1 bytes of a frame) and 0..3 failing "
-            "reconnect attempts, lost transports that take 0 / 3 / 12 s to finish closing, and 0..2 re-established transports whose very first write fails at once; observed per cycle: connected=False/True events per device, transport close calls, open attempts with their "
+            "reconnect attempts (and one outage of 1200 failing attempts), lost transports that take 0 / 3 / 12 s to finish closing, and 0..2 re-established transports whose very first write fails at once; observed per cycle: connected=False/True events per device, transport close calls, open attempts with their "
             "virtual-time gaps, start-master frames on the new transport, live producer/consumer tasks.  Non-trivial = a device is known when "
             "the connection is lost; distinct by case content.")
     assumptions = ["the chronological history of every run (device events, transport closes, open attempts with the back-off between them, "
@@ -199,6 +199,10 @@ class C11(Prop):
                                "instant": rng.choice([0, 0, 0, 1, 2]), "slow_close": rng.choice([0, 0, 0, 3, 12]),
                                "cut": rng.choice([1, 3, 6, 7, 8, 9, 10, rng.randrange(1, 400), 10 ** 6])})
             cases.append({"kind": "random", "n0": rng.randrange(0, 3), "cycles": cycles})
+        # an outage of hours: more than a thousand failing attempts in one chain, then success
+        for fails in ([1200] if tier == "quick" else [999, 1200, 2500]):
+            cases.append({"kind": "long-outage", "n0": 0, "cycles": [{"traffic": [0x45], "fault": rng.choice(["eof", "timeout"]), "after": 1,
+                                                                       "fails": fails, "busy": False, "instant": 0, "slow_close": 0, "cut": 8}]})
         return cases
 
     def run_impl(self, c):
